@@ -13,6 +13,7 @@ import (
 	_ "pdverif/internal/electionh"
 	_ "pdverif/internal/idalloc"
 	_ "pdverif/internal/operatorh"
+	_ "pdverif/internal/checkerh"
 	_ "pdverif/internal/placementh"
 	_ "pdverif/internal/regionh"
 	_ "pdverif/internal/replh"
